@@ -187,13 +187,23 @@ type gen struct {
 	budget int // bytes this history may still write with large sizes
 }
 
+// laterEpochMark: a Flush of a bytes writer that was already flushed successfully gets a tag ending
+// in "later-epoch" (the known finding F15 is keyed on this mark); sep joins it to an existing tag.
+func laterEpochMark(fields []string, sep string) string {
+	if len(fields) == 2 && fields[0] == "wr" && fields[1] == "flush" && st != nil && st.bytes && st.flushes >= 1 {
+		return sep + "later-epoch"
+	}
+	return ""
+}
+
 // do runs one op on the real code and emits its line; returns the result
 func (g *gen) do(fields ...string) string {
 	if g.done {
 		return ""
 	}
+	tag := g.tag + strconv.Itoa(g.step) + laterEpochMark(fields, ".")
 	res := exec(fields)
-	em.Line(res, append(fields, g.tag+strconv.Itoa(g.step))...)
+	em.Line(res, append(fields, tag)...)
 	if g.upto >= 0 && g.step >= g.upto {
 		g.done = true
 	}
@@ -621,7 +631,7 @@ func replay(o *lib.Opts, lines [][]string) {
 		}
 		if t := f[len(f)-1]; strings.HasPrefix(t, "@") {
 			parts := strings.Split(t[1:], ".")
-			if len(parts) == 4 {
+			if len(parts) == 4 || (len(parts) == 5 && parts[4] == "later-epoch") {
 				sd, e1 := strconv.ParseUint(parts[0], 10, 64)
 				h, e2 := strconv.Atoi(parts[2])
 				k, e3 := strconv.Atoi(parts[3])
@@ -642,6 +652,11 @@ func replay(o *lib.Opts, lines [][]string) {
 			f = f[:len(f)-1]
 		}
 		lastH = -1
+		if m := laterEpochMark(f, "@"); m != "" {
+			res := exec(f)
+			em.Line(res, append(f, m)...)
+			continue
+		}
 		em.Line(exec(f), f...)
 	}
 }
